@@ -277,6 +277,8 @@ func (st *State) addTrace(ev TraceEv) {
 // Engine-wide fresh names
 
 type Engine struct {
+	unrollAll   bool              // bounded variant: loops are unrolled instead of cut at their invariants
+	entryShapes map[string]string // input-map name -> shape of its entries in the current variant (bounded shapes)
 	prog     *ssa.Program
 	pkg      *ssa.Package
 	nextCell int
